@@ -46,6 +46,9 @@ class PWM(PoupoolActor):
 
     def do_cancel(self):
         super().do_cancel()
+        # Account the running time since the last tick
+        if self.__state:
+            self.__security_duration.update(datetime.now())
         # Clear the security duration counter and last time during a pause
         self.__security_duration.clear()
         self.__last = None
